@@ -1,5 +1,6 @@
 import HexVerif.Asm.Check
 import HexVerif.Isa.Spec
+import HexVerif.Sim.Model
 import Drivers.Util
 /-! Line-protocol driver for the hexasm model; mirrors harness/h_asm.cpp. -/
 open Hex Hex.Asm Hex.Drv
@@ -108,6 +109,36 @@ def handle (line : String) : String :=
     let img := (fileB.drop 4).take (4 * hdr)
     let vi : Int := (BitVec.ofNat 32 (hexToNat v)).toInt
     s!"chk image={checkImage [.imm (hexToNat opc) vi] img} header={checkHeader fileB}"
+  | ["check15", src, file] =>
+    -- C15 oracle on the REAL file: the debug section lists every FUNC/PROC once, in order, with
+    -- the offset at which the ISA walk over the real image reaches the label
+    match parseProgram (tokenize (unhex src)) with
+    | .error _ => "chk unparsable"
+    | .ok p =>
+      let dirs := p.map (·.1)
+      let fileB := unhex file
+      let hdr := (le32 fileB).toNat
+      let img := (fileB.drop 4).take (4 * hdr)
+      let dbg := (fileB.drop 4).drop (4 * hdr)
+      match Hex.Sim.loadParts Mem.zero fileB with
+      | none => "chk symbols=false (table unreadable)"
+      | some (_, tbl) =>
+        -- expected: labels of kind func/proc with the position of the walk
+        let rec go (ds : List Dir) (pos : Nat) (bs : List Byte) (fuel : Nat) : List (String × Nat) :=
+          match fuel, ds with
+          | 0, _ => []
+          | _, [] => []
+          | fuel + 1, d :: rest =>
+            match d with
+            | .label k n => (if k = .plain then [] else [(n, pos)]) ++ go rest pos bs fuel
+            | .data _ => let pad := align4 pos - pos; go rest (pos + pad + 4) (bs.drop (pad + 4)) fuel
+            | .opr _ => go rest (pos + 1) (bs.drop 1) fuel
+            | _ => match decodeInstr bs with
+                   | some (_, _, n, bs') => go rest (pos + n) bs' fuel
+                   | none => []
+        let expect := go dirs 0 img (dirs.length + 1)
+        let got := tbl.map fun e => (e.1, e.2.toNat)
+        s!"chk symbols={decide (expect = got)} n={got.length} dbgbytes={dbg.length}"
   | ["decode", img, pc] =>
     -- oracle: decode real bytes
     match decodeAt (unhex img).toArray (hexToNat pc) with
